@@ -141,6 +141,7 @@ pub struct NewNode {
     pub props: Vec<(String, MV)>,
     pub children: Vec<NewNode>,
     pub self_ref_prop: bool,
+    pub other_thread: bool,
 }
 
 #[derive(Clone, Debug)]
@@ -203,7 +204,14 @@ fn v(prop: &'static str, sig: &str, what: String) -> V {
 
 impl World {
     fn builder_of(&self, n: &NewNode, ids: &mut Vec<(InstanceBuilderInfo, usize)>, m: &mut Model, dom: usize, parent: Option<usize>) -> (InstanceBuilder, usize) {
-        let mut b = InstanceBuilder::new(n.class.as_str()).with_name(n.name.clone());
+        // `other_thread`: the builder (and with it the new referent) is created on a freshly started thread, as a
+        // program that prepares subtrees on worker threads would; where it was made must not matter once it is inserted
+        let mut b = if n.other_thread {
+            std::thread::scope(|s| s.spawn(|| InstanceBuilder::new(n.class.as_str())).join().expect("builder thread"))
+        } else {
+            InstanceBuilder::new(n.class.as_str())
+        }
+        .with_name(n.name.clone());
         let id = m.next;
         m.next += 1;
         let mut props = BTreeMap::new();
@@ -294,7 +302,8 @@ fn gen_newnode(ch: &mut dyn Chooser, w: &World, cfg: &Cfg, depth: usize, budget:
             children.push(gen_newnode(ch, w, cfg, depth + 1, budget));
         }
     }
-    NewNode { class, name, shadowed_uid, props, children, self_ref_prop: self_ref }
+    let other_thread = cfg.rich_props && !cfg.exhaustive && ch.choose(6) == 0;
+    NewNode { class, name, shadowed_uid, props, children, self_ref_prop: self_ref, other_thread }
 }
 
 fn gen_op(ch: &mut dyn Chooser, w: &World, cfg: &Cfg) -> Option<Op> {
@@ -434,7 +443,7 @@ fn all_ops(w: &World, cfg: &Cfg) -> Vec<Op> {
                     ops.push(Op::Insert {
                         dom: w.m.nodes[p].dom,
                         parent: *p,
-                        sub: NewNode { class: "Folder".into(), name: "n".into(), shadowed_uid: None, props, children: vec![], self_ref_prop: false },
+                        sub: NewNode { class: "Folder".into(), name: "n".into(), shadowed_uid: None, props, children: vec![], self_ref_prop: false, other_thread: false },
                     });
                 }
             }
